@@ -83,6 +83,144 @@ Theorem C09_rtree_codec : forall img n off lo hi b ips secs bs lv,
 Proof. exact parse_index_ok. Qed.
 Print Assumptions C09_rtree_codec.
 
+
+(* ------------------------------------------------------------------------------------------
+   Part 2: the buffer size (compressor-parametric writer model, Model/BigWigWriteZ.v: every data
+   and zoom section goes through an arbitrary [compress] when options.compress is set). *)
+From BT Require Import Model.BigWigWriteZ Proofs.BigWigFileRoundTrip Proofs.BigWigFileData Proofs.ZoomBwLevels Proofs.C09Data Proofs.C09File Proofs.C09Levels
+  Proofs.C09Whole Proofs.C09BufSize.
+
+(* the header's uncompress_buf_size is >= the uncompressed size of every block (data sections and
+   the sections of every zoom level computed in the single pass), and it is 0 iff compression is off *)
+Theorem C09_buf_size : forall compress fp o sizes inp bs,
+  bw_write_z compress fp o sizes inp = Ok bs -> opts_ok o ->
+  exists ids outs sum data zooms ubuf nz a b c d,
+    bw_collect fp o sizes inp = Ok (ids, outs, sum, data)
+    /\ bw_zoom_levels fp o outs (zoom_sizes_single o) = Ok zooms
+    /\ has_at bs 0 (header_bytes BIGWIG_MAGIC nz a b c 0 0 0 d ubuf)
+    /\ blocks_bound (o_compress o) ubuf (data ++ flat_map zl_secs zooms)
+    /\ (ubuf = 0 <-> o_compress o = false).
+Proof. exact buf_size_single. Qed.
+Print Assumptions C09_buf_size.
+
+Theorem C09_buf_size_multipass : forall compress fp o sizes inp bs,
+  bw_write_multipass_z compress fp o sizes inp = Ok bs -> opts_ok o ->
+  exists ids outs sum data zooms ubuf nz a b c d,
+    bw_collect fp o sizes inp = Ok (ids, outs, sum, data)
+    /\ has_at bs 0 (header_bytes BIGWIG_MAGIC nz a b c 0 0 0 d ubuf)
+    /\ blocks_bound (o_compress o) ubuf (data ++ flat_map zl_secs zooms)
+    /\ (ubuf = 0 <-> o_compress o = false).
+Proof. exact buf_size_multipass. Qed.
+Print Assumptions C09_buf_size_multipass.
+
+(* with compression off the parametric model IS the byte-exact model of Model/BigWigWrite.v *)
+Theorem C09_model_uncompressed : forall compress fp o sizes inp, o_compress o = false ->
+  bw_write_z compress fp o sizes inp = bw_write fp o sizes inp
+  /\ bw_write_multipass_z compress fp o sizes inp = bw_write_multipass fp o sizes inp.
+Proof. exact bw_write_z_uncompressed. Qed.
+Print Assumptions C09_model_uncompressed.
+
+(* ------------------------------------------------------------------------------------------
+   Part 3: the whole file.  For every options record with 2 <= block_size <= 65535,
+   1 <= items_per_slot <= 65535 and zoom resolutions that fit u32, every chromosome-size table
+   with u32 lengths, every input the writer accepts (chromosome names without NUL and non-empty,
+   at most 65535 chromosomes, f32 bit patterns), if the file is shorter than 2^64 bytes, the
+   independent decoder accepts the file the writer model produces — whatever the inflate oracle,
+   the file being uncompressed — and returns [content_of]: the chromosome table (name, id, size),
+   exactly the input records in input order (C09_records_are_input), the number of records per
+   block, the total summary folded over the chromosomes (C09_summary_is_folded; bit patterns), and for
+   every zoom level that was written the records process_val_zoom produced at that resolution.
+   Strict decoder (increasing chromosome keys): input_sort_type = ALL; lenient decoder: always. *)
+Theorem C09_decode_encode : forall fp o sizes inp bs inflate,
+  bw_write fp o sizes inp = Ok bs -> opts_ok o -> input_ok sizes inp -> Nlen bs < U64 ->
+  Forall (fun c : name => c <> []) (map fst (runs inp)) ->
+  o_sort_all o = true ->
+  Forall (fun z => z < W32) (zoom_sizes_single o) ->
+  exists ids outs sum data kept,
+    bw_collect fp o sizes inp = Ok (ids, outs, sum, data)
+    /\ incl kept (zoom_sizes_single o) /\ inc_from 0 kept
+    /\ decode bs inflate = Some (content_of fp o sizes ids outs sum kept).
+Proof.
+  intros fp o sizes inp bs inflate H Ho Hi Hs Hn Hsort Hu.
+  apply (bw_write_decodes fp o sizes inp bs true inflate H Ho Hi Hs Hn); [|exact Hu].
+  intros _. destruct (BigWigFileThms.bw_write_inv fp o sizes inp bs H) as (ids & outs & sum & data & zooms & Hcol & _).
+  exact (sorted_names_increasing fp o sizes inp ids outs sum data Hsort Hcol).
+Qed.
+Print Assumptions C09_decode_encode.
+
+Theorem C09_decode_encode_multipass : forall fp o sizes inp bs inflate,
+  bw_write_multipass fp o sizes inp = Ok bs -> opts_ok o -> input_ok sizes inp -> Nlen bs < U64 ->
+  Forall (fun c : name => c <> []) (map fst (runs inp)) ->
+  o_sort_all o = true ->
+  manual_u32 o ->
+  exists ids outs sum data kept,
+    bw_collect fp o sizes inp = Ok (ids, outs, sum, data)
+    /\ inc_from 0 kept
+    /\ decode bs inflate = Some (content_of fp o sizes ids outs sum kept).
+Proof.
+  intros fp o sizes inp bs inflate H Ho Hi Hs Hn Hsort Hu.
+  apply (bw_write_multipass_decodes fp o sizes inp bs true inflate H Ho Hi Hs Hn); [|exact Hu].
+  intros _. destruct (BigWigFileThms.bw_write_multipass_inv fp o sizes inp bs H) as (ids & outs & sum & data & Hcol & _).
+  exact (sorted_names_increasing fp o sizes inp ids outs sum data Hsort Hcol).
+Qed.
+Print Assumptions C09_decode_encode_multipass.
+
+(* the same without any assumption on the order of the chromosomes, for the decoder that tolerates
+   unsorted chromosome keys (and nothing else) *)
+Theorem C09_decode_encode_lenient : forall fp o sizes inp bs inflate,
+  bw_write fp o sizes inp = Ok bs \/ bw_write_multipass fp o sizes inp = Ok bs ->
+  opts_ok o -> input_ok sizes inp -> Nlen bs < U64 ->
+  Forall (fun c : name => c <> []) (map fst (runs inp)) ->
+  Forall (fun z => z < W32) (zoom_sizes_single o) -> manual_u32 o ->
+  exists ids outs sum data kept,
+    bw_collect fp o sizes inp = Ok (ids, outs, sum, data)
+    /\ inc_from 0 kept
+    /\ decode_lenient bs inflate = Some (content_of fp o sizes ids outs sum kept).
+Proof.
+  intros fp o sizes inp bs inflate [H|H] Ho Hi Hs Hn Hu1 Hu2.
+  - destruct (bw_write_decodes fp o sizes inp bs false inflate H Ho Hi Hs Hn ltac:(discriminate) Hu1)
+      as (ids & outs & sum & data & kept & H1 & _ & H3 & H4). exists ids, outs, sum, data, kept. auto.
+  - exact (bw_write_multipass_decodes fp o sizes inp bs false inflate H Ho Hi Hs Hn ltac:(discriminate) Hu2).
+Qed.
+Print Assumptions C09_decode_encode_lenient.
+
+(* what [content_of] holds: the records are the input records, in input order, each with the
+   first-appearance id of its chromosome; the summary is the fold of the per-chromosome summaries *)
+Theorem C09_records_are_input : forall fp o sizes inp ids outs sum data,
+  bw_collect fp o sizes inp = Ok (ids, outs, sum, data) -> recs_of outs = input_records ids inp.
+Proof. exact records_are_input. Qed.
+Print Assumptions C09_records_are_input.
+
+Theorem C09_ids_first_appearance : forall fp o sizes inp ids outs sum data,
+  bw_collect fp o sizes inp = Ok (ids, outs, sum, data) ->
+  ids = BigWigFileChroms.number 0 (BigWigFileInput.first_app (map fst inp)).
+Proof. exact ids_first_appearance. Qed.
+Print Assumptions C09_ids_first_appearance.
+
+Theorem C09_summary_is_folded : forall fp o sizes inp ids outs sum data,
+  bw_collect fp o sizes inp = Ok (ids, outs, sum, data) ->
+  sum = match fold_left (summary_merge fp) (map (fun c => chrom_summary fp (co_vals c)) outs) None with
+        | Some s => s | None => summary_zero end.
+Proof. exact summary_is_folded. Qed.
+Print Assumptions C09_summary_is_folded.
+
+(* ------------------------------------------------------------------------------------------
+   Refuted without the order hypothesis (known finding chrom-tree-keys-unsorted): with
+   input_sort_type = START the writer accepts chromosomes 'a' then 'B', writes the B+ tree leaf in
+   id order, and the strict decoder rejects the file (keys not increasing) while the lenient one
+   decodes it.  Replayed on the real writer by corpus/C09/keys-unsorted.txt. *)
+Definition c09_wit_opts : opts :=
+  {| o_compress := false; o_ips := 1; o_bs := 5; o_izoom := 1; o_maxzooms := 10; o_manual := None; o_sort_all := false |}.
+Definition c09_wit_sizes : list (name * N) := [([66], 6); ([97], 123)].
+Definition c09_wit_input : list item :=
+  [([97], {| v_start := 7; v_end := 23; v_bits := 1120403456 |}); ([66], {| v_start := 5; v_end := 6; v_bits := 1073741824 |})].
+Theorem C09_chrom_keys_refuted :
+  exists bs, bw_write ieee c09_wit_opts c09_wit_sizes c09_wit_input = Ok bs
+    /\ decode bs (fun _ _ => None) = None
+    /\ exists c, decode_lenient bs (fun _ _ => None) = Some c /\ map fc_name (c_chroms c) = [[97]; [66]].
+Proof. eexists. split; [vm_compute; reflexivity|]. split; [vm_compute; reflexivity|]. eexists. split; vm_compute; reflexivity. Qed.
+Print Assumptions C09_chrom_keys_refuted.
+
 (* Non-vacuity: concrete instances meet the hypotheses and the decoder really returns the values. *)
 Example C09_section_example :
   let items := [{| v_start := 5; v_end := 9; v_bits := 1065353216 |}; {| v_start := 9; v_end := 20; v_bits := 3212836864 |}] in
@@ -116,3 +254,25 @@ Example C09_rtree_example :
   | _ => False
   end.
 Proof. cbv zeta. vm_compute. eexists _, _. split; reflexivity. Qed.
+
+(* a whole file: the hypotheses of C09_decode_encode are met and the decoder returns what it says *)
+Definition c09_ex_opts : opts :=
+  {| o_compress := false; o_ips := 2; o_bs := 2; o_izoom := 10; o_maxzooms := 10; o_manual := Some [5; 40]; o_sort_all := true |}.
+Definition c09_ex_sizes : list (name * N) := [([98], 50); ([97], 100)].
+Definition c09_ex_input : list item :=
+  [([97], {| v_start := 0; v_end := 5; v_bits := 1065353216 |}); ([97], {| v_start := 5; v_end := 12; v_bits := 1073741824 |});
+   ([97], {| v_start := 20; v_end := 30; v_bits := 1056964608 |}); ([98], {| v_start := 3; v_end := 4; v_bits := 1065353216 |})].
+Example C09_whole_file_example :
+  match bw_write ieee c09_ex_opts c09_ex_sizes c09_ex_input, bw_collect ieee c09_ex_opts c09_ex_sizes c09_ex_input with
+  | Ok bs, Ok (ids, outs, sum, data) =>
+      opts_ok c09_ex_opts /\ Nlen bs < U64 /\ o_sort_all c09_ex_opts = true
+      /\ Forall (fun z => z < W32) (zoom_sizes_single c09_ex_opts)
+      /\ decode bs (fun _ _ => None) = Some (content_of ieee c09_ex_opts c09_ex_sizes ids outs sum [5; 40])
+      /\ map (fun r => (fr_chrom r, fr_start r, fr_end r)) (recs_of outs) = [(0, 0, 5); (0, 5, 12); (0, 20, 30); (1, 3, 4)]
+      /\ Nlen bs = 1768
+  | _, _ => False
+  end.
+Proof.
+  vm_compute. repeat split; try reflexivity; try discriminate; try lia.
+  repeat (constructor; [reflexivity|]). constructor.
+Qed.
